@@ -36,6 +36,34 @@ def _stream_var(f):
     return None, None
 
 
+def _resolve_consts(f, tt, t, depth=0):
+    """replace const-qualified locals that are initialised once and never written by their initialiser"""
+    if depth > 4 or not isinstance(t, tuple):
+        return t
+    if t and t[0] == 'var':
+        d = f.unit.decl(t[1])
+        if d and d.get('dk') == 'Var' and d.get('local') and d.get('constq') and not d.get('isref'):
+            sdn = tt._single_def(t[1])
+            if sdn is not None:
+                return _resolve_consts(f, tt, tt.t(sdn), depth + 1)
+        return t
+    return tuple(_resolve_consts(f, tt, x, depth + 1) if isinstance(x, tuple) else x for x in t)
+
+
+def _stream_init(f, tt, sd, decl):
+    """the term the stream is opened with: its constructor arguments, or - when it is default-constructed and opened with one
+    `stream.open(name, mode)` call - the arguments of that call (returned as a constructor term), plus the node that opens it"""
+    init = tt.t(decl['c'][decl['decls'].index(sd)]) if decl['decls'].index(sd) < len(decl['c']) and decl['c'][decl['decls'].index(sd)] >= 0 \
+        else ('ctor', '', ())
+    args = [x for x in init[2] if not (x[0] == 'ctor' and 'allocator' in x[1])] if init[0] == 'ctor' else None
+    if args == []:
+        opens = [n for n in f.nodes if n['k'] == 'CXXMemberCallExpr' and 'callee' in n and f.unit.decl(n['callee'])['name'] == 'open' and
+                 tt.t(n.get('obj', -1)) == ('var', sd)]
+        if len(opens) == 1:
+            return ('ctor', init[1], tuple(_resolve_consts(f, tt, tt.t(a)) for a in opens[0].get('args', []))), opens[0]
+    return _resolve_consts(f, tt, init), decl
+
+
 def _is_nolabel(f):
     return 'BaseGraph::NoLabel' in (f.targs or '')
 
@@ -107,7 +135,7 @@ def rule_open(m):
             disp = f.display()
             fname = [('var', p) for ix, p in enumerate(f.params) if f.pnames[ix] == 'fileName' or
                      'basic_string' in f.cptypes[ix]]
-            init = tt.t(decl['c'][decl['decls'].index(sd)])
+            init, opener_node = _stream_init(f, tt, sd, decl)
             why = None
             if not fname or not any(st == fname[0] for st in subterms(init)):
                 why = 'the stream is not opened on the caller\'s file name'
@@ -125,7 +153,7 @@ def rule_open(m):
                     why = 'the stream is opened on `%s`, a name computed from the caller\'s file name and not that name itself: ' \
                           'calls with distinct file names can end up writing the same file, and an observer of the documented ' \
                           'target sees it appear by another route' % show(path, f.unit)[:80]
-            reg0 = f.region(decl['i'])
+            reg0 = f.region(opener_node['i'])
             if reg0 and not why:
                 dep0 = sorted(reg0)[0]
                 a0 = f.branch_atom(dep0[0])
@@ -162,6 +190,8 @@ def rule_open(m):
             else:
                 for n in f.nodes:
                     if n['k'] == 'DeclRefExpr' and n['d'] == sd and n['i'] not in f.descendants(verify[0]['i']):
+                        if opener_node is not decl and n['i'] in f.descendants(opener_node['i']):
+                            continue
                         if not f.node_dominates(verify[0]['i'], n['i']):
                             why = why or 'the stream is used at %s before verifyStreamOpened' % f.nloc(n['i'])
             if why:
@@ -1098,6 +1128,31 @@ def _adjacency_walk(m, f, tt, graphs, exact=True):
     return None
 
 
+def rule_index_width(m):
+    """F-IO.WIDTH: the vertex index type is 32 bits wide and unsigned."""
+    res = RuleResult('F-IO.WIDTH', 'VertexIndex is a 32-bit unsigned integer type on this target: the binary routines write and read '
+                                   'indices with sizeof(VertexIndex) bytes, and the documented format has 32-bit fields')
+    seen = set()
+    for f in m.fns:
+        for ix, pt in enumerate(f.ptypes):
+            if pt.replace('const ', '').replace('&', '').strip() in ('BaseGraph::VertexIndex', 'VertexIndex') and ix < len(f.cptypes):
+                ct = f.cptypes[ix].replace('const ', '').replace('&', '').strip()
+                if ct in seen:
+                    continue
+                seen.add(ct)
+                res.sites += 1
+                if ct == 'unsigned int':
+                    res.ok(dict(alias='BaseGraph::VertexIndex', canonical=ct, bits=32), fn=f.display())
+                else:
+                    res.fail(Finding('F-IO.WIDTH', 'BaseGraph::VertexIndex', 'index type', f.where(),
+                                     'VertexIndex is `%s` on this target, not a 32-bit unsigned integer: writeBinaryValue / '
+                                     'readBinaryValue transfer sizeof(VertexIndex) bytes per index, so records are not the documented '
+                                     '4 + 4 (+ label) bytes, files of other hosts and hand-made files in the documented format are misread'
+                                     % ct))
+    res.require_sites(1, 'uses of the alias VertexIndex')
+    return res
+
+
 def rule_schema_binary(m):
     res = RuleResult('F-IO.SCHEMA.bin', 'binary writer and loader agree on the record: [u32 source, u32 destination, '
                                         'label] with the default label codec write/readBinaryValue<EdgeLabel>; both '
@@ -1321,7 +1376,9 @@ def rule_schema_binary(m):
             elif len({s[2] for s in seq if s[0] == 'prim'}) != 1 or 'unsigned int' not in seq[0][2]:
                 why = 'source and destination are not both written as 32-bit unsigned integers (%s)' % [s[2] for s in seq]
             # nothing written outside the loop
-            outside = [n for n in f.nodes if n['k'] == 'DeclRefExpr' and n['d'] == sd and n['i'] not in body]
+            outside = [n for n in f.nodes if n['k'] == 'DeclRefExpr' and n['d'] == sd and n['i'] not in body and
+                       not any(n['i'] in f.descendants(o['i']) for o in f.nodes if o['k'] == 'CXXMemberCallExpr' and 'callee' in o and
+                               f.unit.decl(o['callee'])['name'] == 'open')]
             if not why and len(outside) > 1:   # the verifyStreamOpened argument
                 why = 'the stream is written outside the record loop (header or trailer)'
         f = outer
@@ -1467,6 +1524,12 @@ def rule_schema_text(m):
                 if cond is None:
                     why = why or 'expected the result of std::getline to be tested by the line loop'
                     continue
+                sd0, _d0 = _stream_var(f)
+                ga = [tt.t(x) for x in n.get('args', [])]
+                if sd0 is not None and ga and strip_conv_call(ga[0]) != ('var', sd0):
+                    why = why or ('the line is read with `%s`: what is extracted from the stream before std::getline (leading '
+                                  'whitespace with std::ws) is no longer part of the line, so the comment test and the tokeniser do not '
+                                  'see the line as it is in the file' % f.expr_text(n['i'])[:60])
                 for c in _cj(strip_conv_call(tt.t(cond))):
                     c = strip_conv_call(c)
                     neg = False
@@ -1492,6 +1555,13 @@ def rule_schema_text(m):
             why = why or 'the line is not tokenised by findEdgeFromString exactly once'
         else:
             ds = [f.nodes[x].get('v') for x in f.descendants(tok[0]['i']) if f.nodes[x]['k'] == 'StringLiteral']
+            if not ds and len(tok[0].get('args', [])) >= 2:
+                # the delimiter string handed over through a named constant
+                dt = strip_cast(_pc2.unconst(tt.t(tok[0]['args'][1])))
+                while dt[0] in ('cast', 'conv') and len(dt) > 2 and isinstance(dt[2], tuple):
+                    dt = strip_cast(dt[2])
+                if dt[0] == 'str':
+                    ds = [dt[1]]
             delims = ds[0] if ds else None
             if delims is None or ' ' not in delims or '\t' not in delims:
                 why = why or 'the delimiter set of the tokeniser does not contain space and tab'
